@@ -54,3 +54,9 @@ def execute_history(prop, run, cov, log, mode, own_kinds, ctor_kinds=()):
 def sample_of(run):
     return {'config': run['config'], 'ops': run['ops'][:12],
             'n_ops': len(run['ops'])}
+
+
+def preload():
+    from sim import repo
+    repo.mod('src.mesh')
+    repo.mod('src.parametrization')
